@@ -896,6 +896,9 @@ def generate(rng, mode):
           ("orig", w(0.2, 1)), ("cond", w(0.1, 0.5, 0.3))]
     qw = [("reach", 3.0), ("can", w(0.5, 3))]
     q_ratio = rng.uniform(0.05, 0.3)
+  deep_profile = (mode == "c08" and not srcsets_profile and rng.random() < 0.06)
+  if deep_profile:
+    cfgd["profile"] = "deep"
   if not any(x for _, x in mw):
     mw[1] = ("cnew", 1.0)
   if not any(x for _, x in qw):
@@ -1026,6 +1029,41 @@ def generate(rng, mode):
       ops.append(["cnew", hub, None]); st["n"] += 1
       ops.append(["cnew", st["n"] - 1, None]); st["n"] += 1
       ops.append(["cto", st["n"] - 1, hub])
+  if deep_profile:
+    # a use-def chain several hundred levels deep (c_i = f(c_{i-1}) over
+    # consecutive nodes), its root source usually overwritten so that the true
+    # answers are False; queries from the far end first, then from inside -
+    # the search depth of a query is a property of the query, not of the state
+    top = st["n"] - 1
+    ops.append(["varb", [0], [], top]); root_b = st["b"]; st["v"] += 1; st["b"] += 1
+    if rng.random() < 0.75:
+      ops.append(["cnew", top, None]); st["n"] += 1
+      ops.append(["bind", st["v"] - 1, 1, [], st["n"] - 1]); st["b"] += 1
+    prev = root_b
+    chain = []
+    depth = rng.choice([60, 150, 250, 257, 300, 420])
+    for i in range(depth):
+      ops.append(["cnew", st["n"] - 1, None]); st["n"] += 1
+      if rng.random() < 0.05:
+        # a side branch that re-joins: two paths to the next level
+        ops.append(["cnew", st["n"] - 2, None]); st["n"] += 1
+        ops.append(["cto", st["n"] - 1, st["n"] - 2])
+        ops.append(["cnew", st["n"] - 2, None]); st["n"] += 1
+      ops.append(["varb", [rng.randrange(4)], [prev], st["n"] - 1])
+      prev = st["b"]; st["v"] += 1; st["b"] += 1
+      chain.append((st["n"] - 1, prev))
+    far = chain[-1]
+    qs = [["has", far[0], [far[1]]], ["vis", far[1], far[0]]]
+    for _ in range(rng.randrange(2, 7)):
+      nd, b = rng.choice(chain)
+      at = rng.choice([nd, far[0], chain[min(len(chain) - 1, chain.index((nd, b)) + rng.randrange(0, 40))][0]])
+      qs.append(rng.choice([["has", at, [b]], ["vis", b, at]]))
+    if rng.random() < 0.3:
+      rng.shuffle(qs)
+    for q in qs:
+      ops.append(q)
+      past_q.append(q)
+    n_ops = cfgd["n_ops"] = len(ops) + rng.randrange(0, 25)
   # a few bindings so early queries have something to ask
   if mode == "c08":
     for _ in range(rng.randrange(1, 4)):
